@@ -33,6 +33,8 @@ impl ResolveRegistry {
     {
         let (effect, resolve) = effect.serialize();
 
+        #[cfg(crux_verif)]
+        let _verif_scope = crate::verif::lock_scope("registry", std::ptr::from_ref(self) as usize);
         let id = self
             .0
             .lock()
@@ -53,6 +55,8 @@ impl ResolveRegistry {
         id: EffectId,
         body: &mut dyn erased_serde::Deserializer,
     ) -> Result<(), BridgeError> {
+        #[cfg(crux_verif)]
+        let _verif_scope = crate::verif::lock_scope("registry", std::ptr::from_ref(self) as usize);
         let mut registry_lock = self.0.lock().expect("Registry Mutex poisoned");
 
         let entry = registry_lock.get_mut(id.0 as usize);
@@ -69,5 +73,24 @@ impl ResolveRegistry {
         }
 
         resolved
+    }
+
+    /// Ids currently registered, with their kind (verification accessor)
+    #[cfg(crux_verif)]
+    pub(crate) fn verif_entries(&self) -> Vec<(u32, crate::verif::EntryKind)> {
+        use crate::verif::EntryKind;
+        self.0
+            .lock()
+            .expect("Registry Mutex poisoned")
+            .iter()
+            .map(|(id, entry)| {
+                let kind = match entry {
+                    ResolveSerialized::Never => EntryKind::Never,
+                    ResolveSerialized::Once(_) => EntryKind::Once,
+                    ResolveSerialized::Many(_) => EntryKind::Many,
+                };
+                (u32::try_from(id).expect("EffectId overflow"), kind)
+            })
+            .collect()
     }
 }
